@@ -46,6 +46,9 @@ func NewPort(init [][]byte, replies [][][]byte, wf, rf, ff []int) *Port {
 func (p *Port) Write(b []byte) (int, error) {
 	k := p.NW
 	p.NW++
+	if p.NW > opBudget {
+		panic(budgetExceeded{})
+	}
 	p.Events = append(p.Events, 'W')
 	if p.WF[k] {
 		return 0, errFault
@@ -61,9 +64,17 @@ func (p *Port) Write(b []byte) (int, error) {
 	return len(b), nil
 }
 
+// budget: a call that performs this many port operations is looping (C06: bounded reads / writes)
+const opBudget = 20000
+
+type budgetExceeded struct{}
+
 func (p *Port) Read(b []byte) (int, error) {
 	k := p.NR
 	p.NR++
+	if p.NR > opBudget {
+		panic(budgetExceeded{})
+	}
 	p.Events = append(p.Events, 'R')
 	if p.RF[k] {
 		return 0, errFault
